@@ -926,7 +926,9 @@ fn shim_stage(ctx: &Ctx, acc: &mut Acc, tier: Tier) -> String {
         }
         Err(e) => return format!("skipped: cannot run cargo: {e}"),
     }
-    let out = Command::new(format!("{root}/target/sync/release/t2n-verif-sync"))
+    let mut sync_cmd = Command::new(format!("{root}/target/sync/release/t2n-verif-sync"));
+    die_with_parent(&mut sync_cmd);
+    let out = sync_cmd
         .args(["C14-shim", "--tier", tier.name()])
         .env("VERIF_ROOT", root)
         .stdin(Stdio::null())
@@ -1098,7 +1100,9 @@ pub fn run(tier: Tier) -> i32 {
     acc.states += 1;
     acc.traces += 1;
     let exe = std::env::current_exe().unwrap();
-    match Command::new(exe).arg("silent-child").stdin(Stdio::null()).output() {
+    let mut silent_cmd = Command::new(exe);
+    die_with_parent(&mut silent_cmd);
+    match silent_cmd.arg("silent-child").stdin(Stdio::null()).output() {
         Ok(o) => {
             if !o.status.success() {
                 println!("machinery: silent-child exited with {}", o.status);
